@@ -167,8 +167,25 @@ def activate(s):
     _ACTIVE = s
 
 
-def run_scheduled(root, schedule, fns, join_timeout=120.0):
+def _profiler(s, parts):
+    """Per-thread profile function: every Python-level call into the selected dvc_data modules is a yield
+    point too (function-call granularity: races between two statements of the code under test that involve
+    no filesystem operation become reachable)."""
+
+    def prof(frame, event, _arg):
+        if event == "call":
+            fn = frame.f_code.co_filename
+            if "/dvc_data/" in fn and not fn.endswith("callbacks.py") and (not parts or fn.endswith(parts)):
+                s.yield_point("call")
+
+    return prof
+
+
+def run_scheduled(root, schedule, fns, join_timeout=120.0, trace=None):
     """Run fns[i]() in writer thread i under the generated schedule.
+
+    trace: None = yield at filesystem operations only; a tuple of file-name suffixes (possibly empty = all
+    of dvc_data) = additionally yield at every Python call into those modules.
 
     Returns (sched, results) where results[i] = ('ok', value) | ('exc', exception).
     """
@@ -181,7 +198,13 @@ def run_scheduled(root, schedule, fns, join_timeout=120.0):
         try:
             s.enter(i)
             try:
-                results[i] = ("ok", fns[i]())
+                if trace is not None:
+                    sys.setprofile(_profiler(s, tuple(trace)))
+                try:
+                    results[i] = ("ok", fns[i]())
+                finally:
+                    if trace is not None:
+                        sys.setprofile(None)
             except Deadlock:
                 raise
             except BaseException as exc:  # noqa: BLE001
